@@ -160,8 +160,12 @@ pub fn gate_identifier(src: &mut Src) -> CalibrationIdentifier {
             n => Qubit::Fixed(n as u64 - 2),
         })
         .collect();
-    let np = if name == "RX" || src.chance(1, 8) { 1 } else { 0 };
-    let params: Vec<Expression> = (0..np).map(|_| if src.chance(3, 4) { Expression::Variable("t".into()) } else { gx::num(src.below(2) as f64 / 2.0, 0.0) }).collect();
+    // usually at most one parameter; sometimes two, mixing literal and variable positions (the
+    // variables are distinct: t, u)
+    let np = if name == "RX" || src.chance(1, 8) { 1 + usize::from(src.chance(1, 4)) } else { 0 };
+    let params: Vec<Expression> = (0..np)
+        .map(|k| if src.chance(3, 4) { Expression::Variable(["t", "u"][k].into()) } else { gx::num(src.below(2) as f64 / 2.0, 0.0) })
+        .collect();
     CalibrationIdentifier::new(name.to_string(), vec![], params, qubits).unwrap()
 }
 
@@ -203,7 +207,7 @@ pub fn top_instruction(src: &mut Src, known: &[CalibrationIdentifier]) -> Instru
         0 => {
             let name = *src.pick(&GATE_NAMES);
             let nq = if src.chance(1, 6) { 2 } else { 1 };
-            let np = if name == "RX" || src.chance(1, 8) { 1 } else { 0 };
+            let np = if name == "RX" || src.chance(1, 8) { 1 + usize::from(src.chance(1, 4)) } else { 0 };
             Instruction::Gate(Gate {
                 name: name.to_string(),
                 parameters: (0..np).map(|_| gx::num(src.below(4) as f64 / 2.0, 0.0)).collect(),
